@@ -57,12 +57,19 @@ def main(tier):
             variants = [(False, DATE_FORMATS, None), (True, DT_FORMATS, None)]
             for nota in ("ywd", "yd", "ymcw"):
                 variants.append((False, [["d"], ["w", "d"], ["b"]] if (si + len(nota)) % 2 or not quick else [["d"]], nota))
+            if si == 0 or not quick:
+                variants.append((False, [["d"], ["b"]] if quick else [["d"], ["w", "d"], ["b"]], "bizda"))
             for with_time, formats, nota in variants:
                 pts = [dc.point(ch, l, rng.choice([0, 1, 43199, 43200, 86399]) if with_time else 0) for l in ls]
                 if nota and si == 0:
                     # the fixed set is about borrows; for notations what matters are pairs far apart and across century years
                     pts = [dc.point(ch, l, 0) for l in sorted(set(ch.ldn_of(y, mo, d) for y in (1700, 1899, 1900, 2000, 2100, 2399, 2400, 2401, 2800, 2801, 3200, 3201, 4000)
                                                                  for mo, d in ((1, 1), (3, 1), (12, 31))))]
+                if nota == "bizda":
+                    # business-day dates reach the day count through per-year-type tables: business days spread over all fourteen year types
+                    if si == 0:
+                        pts = [dc.point(ch, l, 0) for l in range(ch.ldn_of(1996, 1, 2), ch.ldn_of(2033, 1, 1), 97 if quick else 41)]
+                    pts = [p for p in pts if p["wd"] <= 5]
                 tf = (lambda p, nota=nota: cc.fmt_row(nota, ch.row(p["ldn"]))) if nota else None
                 xa = ["-i", cc.INFMT[nota]] if nota else []
                 for units in formats:
